@@ -317,120 +317,383 @@ Proof.
   unfold res_map. now rewrite (starts_with_false_match _ _ H1), (starts_with_false_match _ _ H2).
 Qed.
 
-Definition arg_result (E : env) (a : val) : Prop :=
-  match obj_map E a with
-  | Some a' => has_nocopy a' = false /\
-               match res_map E a' with
-               | Some o => arg_ok E a o = true
-               | None => is_open a = true
-               end
-  | None => is_open a = true
-  end.
-
-Lemma arg_pipeline E a :
-  ns_wf E = true -> arg_wf E a = true -> arg_known E a = false -> arg_result E a.
+Lemma res_not_handle s : starts_with m_res s = true -> starts_with m_handle s = false.
 Proof.
-  intros Hns Hwf Hk. unfold arg_wf in Hwf. apply andb_true_iff in Hwf as [Hpl Hwf].
-  unfold arg_result.
-  destruct a as [| x | x | s | l | kv | k i];
-    try (cbn [obj_map res_map]; split; [now apply plain_nocopy|];
-         unfold arg_ok; cbn [subst_spec]; apply val_eqb_refl).
-  unfold is_open, arg_ok. cbn [subst_spec obj_map].
-  destruct (classify s) as [name | p | p | | ] eqn:C.
-  - (* ${name} *)
-    apply classify_obj in C. rewrite (exact_body_match _ _ _ C).
-    unfold object_from_string. unfold arg_known in Hk. rewrite (exact_body_match _ _ _ C) in Hk.
-    destruct (slookup name (c_ns E)) as [e|] eqn:L; [|discriminate].
-    split; [exact Hk|]. rewrite (res_map_nsval E name e Hns L). apply val_eqb_refl.
-  - (* $res{p} *)
-    apply classify_res in C. pose proof (exact_body_starts _ _ _ C) as S.
-    rewrite (starts_with_false_match _ _ (res_not_obj _ S)).
-    split; [now apply plain_nocopy|]. cbn [res_map]. rewrite (exact_body_match _ _ _ C).
-    destruct (slookup (dots_to_slashes p) (c_tree E)) as [[h r|m]|]; try discriminate;
-      apply val_eqb_refl.
-  - (* $handle{p} *)
-    apply classify_handle in C. pose proof (exact_body_starts _ _ _ C) as S.
-    rewrite (starts_with_false_match _ _ (handle_not_obj _ S)).
-    split; [now apply plain_nocopy|]. cbn [res_map].
-    rewrite (starts_with_false_match _ _ (handle_not_res _ S)), (exact_body_match _ _ _ C).
-    destruct (slookup (dots_to_slashes p) (c_tree E)) as [[h r|m]|]; try discriminate;
-      apply val_eqb_refl.
-  - (* no marker *)
-    apply classify_plain in C as [C1 [C2 C3]].
-    rewrite (starts_with_false_match _ _ C1).
-    split; [now apply plain_nocopy|]. cbn [res_map].
-    rewrite (starts_with_false_match _ _ C2), (starts_with_false_match _ _ C3).
-    apply val_eqb_refl.
-  - (* open form *)
-    unfold arg_known in Hk. unfold object_from_string.
-    destruct (match_prefix m_obj s) as [g|].
-    + destruct (slookup g (c_ns E)) as [e|]; [|reflexivity].
-      split; [exact Hk|]. now destruct (res_map E (n_val e)).
-    + split; [now apply plain_nocopy|]. now destruct (res_map E (JStr s)).
+  intro H. destruct (starts_with m_handle s) eqn:E; [|reflexivity].
+  apply handle_not_res in E. congruence.
 Qed.
 
-(* ---- lists of arguments -------------------------------------------------------- *)
-Lemma args_pipeline E l :
-  ns_wf E = true -> forallb (arg_wf E) l = true -> existsb (arg_known E) l = false ->
-  match mapM (obj_map E) l with
-  | Some l' => existsb has_nocopy l' = false /\
-               match mapM (res_map E) l' with
-               | Some l'' => forall2b (arg_ok E) l l'' = true
-               | None => existsb is_open l = true
-               end
-  | None => existsb is_open l = true
+Lemma not_starts_exact m s : starts_with m s = false -> exact_body m s = None.
+Proof. unfold starts_with, exact_body. now destruct (strip_prefix m s). Qed.
+
+(* ---- one pass on one value: the code's pass against its declarative reading ---- *)
+Definition agrees (r : option val) (x : expect) : Prop :=
+  match r with
+  | Some c' => x = Exactly c' \/ x = Anything
+  | None => x = Anything
   end.
+
+Lemma vpass_spec E p c : agrees (vpass E p c) (spec_pass E p (Exactly c)).
 Proof.
-  intros Hns. induction l as [|a l IH]; cbn [forallb existsb mapM]; intros Hwf Hk.
-  - split; reflexivity.
-  - apply andb_true_iff in Hwf as [Hw1 Hw2]. apply orb_false_iff in Hk as [Hk1 Hk2].
-    pose proof (arg_pipeline E a Hns Hw1 Hk1) as HA. unfold arg_result in HA.
-    specialize (IH Hw2 Hk2).
-    destruct (obj_map E a) as [a'|]; [|now rewrite HA].
-    destruct HA as [HA1 HA2].
-    destruct (mapM (obj_map E) l) as [l'|]; [|now rewrite IH, orb_true_r].
-    destruct IH as [IH1 IH2]. cbn [existsb mapM]. rewrite HA1, IH1. split; [reflexivity|].
-    destruct (res_map E a') as [o|]; [|now rewrite HA2].
-    destruct (mapM (res_map E) l') as [l''|]; [|now rewrite IH2, orb_true_r].
-    cbn [forall2b]. now rewrite HA2, IH2.
+  destruct p; cbn [vpass].
+  - (* type pass: arguments untouched *)
+    left. now destruct c.
+  - (* object pass *)
+    destruct c as [| | | s | | |]; try (left; reflexivity).
+    cbn [obj_map spec_pass agrees]. unfold object_from_string.
+    destruct (exact_body m_obj s) as [name|] eqn:X.
+    + rewrite (exact_body_match _ _ _ X). destruct (slookup name (c_ns E)); cbn; auto.
+    + destruct (starts_with m_obj s) eqn:S.
+      * destruct (match_prefix m_obj s) as [g|]; [|cbn; auto].
+        destruct (slookup g (c_ns E)); cbn; auto.
+      * rewrite (starts_with_false_match _ _ S). cbn. auto.
+  - (* resource pass *)
+    destruct c as [| | | s | | |]; try (left; reflexivity).
+    cbn [res_map spec_pass agrees]. unfold tree_expect.
+    destruct (exact_body m_res s) as [q|] eqn:X.
+    + rewrite (exact_body_match _ _ _ X).
+      destruct (slookup (dots_to_slashes q) (c_tree E)) as [[h r|m]|]; cbn; auto.
+    + destruct (starts_with m_res s) eqn:S.
+      * rewrite (not_starts_exact _ _ (res_not_handle _ S)). cbn [orb].
+        destruct (match_prefix m_res s) as [g|].
+        -- destruct (slookup (dots_to_slashes g) (c_tree E)) as [[h r|m]|]; cbn; auto.
+        -- rewrite (starts_with_false_match _ _ (res_not_handle _ S)). cbn. auto.
+      * rewrite (starts_with_false_match _ _ S). cbn [orb].
+        destruct (exact_body m_handle s) as [q|] eqn:Y.
+        -- rewrite (exact_body_match _ _ _ Y).
+           destruct (slookup (dots_to_slashes q) (c_tree E)) as [[h r|m]|]; cbn; auto.
+        -- destruct (starts_with m_handle s) eqn:S2.
+           ++ destruct (match_prefix m_handle s) as [g|]; [|cbn; auto].
+              destruct (slookup (dots_to_slashes g) (c_tree E)) as [[h r|m]|]; cbn; auto.
+           ++ rewrite (starts_with_false_match _ _ S2). cbn. auto.
 Qed.
+
+(* all passes on one value *)
+Fixpoint vfold (E : env) (ps : list pass) (c : val) : option val :=
+  match ps with
+  | [] => Some c
+  | p :: r => match vpass E p c with Some c' => vfold E r c' | None => None end
+  end.
+
+Lemma spec_fold_anything E ps : spec_fold E ps Anything = Anything.
+Proof. induction ps as [|p r IH]; cbn [spec_fold spec_pass]; [reflexivity|exact IH]. Qed.
+
+Lemma vfold_spec E ps : forall c, agrees (vfold E ps c) (spec_fold E ps (Exactly c)).
+Proof.
+  induction ps as [|p r IH]; intro c; cbn [vfold spec_fold].
+  - left. reflexivity.
+  - pose proof (vpass_spec E p c) as H. destruct (vpass E p c) as [c'|]; cbn [agrees] in H.
+    + destruct H as [-> | ->].
+      * apply IH.
+      * rewrite spec_fold_anything. destruct (vfold E r c'); cbn; auto.
+    + rewrite H, spec_fold_anything. reflexivity.
+Qed.
+
+(* the default list of passes read pass by pass = the one-pass reading *)
+Lemma fold_default_one_pass E a :
+  ns_wf E = true -> spec_fold E default_passes (Exactly a) = subst_spec E a.
+Proof.
+  intro Hns. unfold default_passes. cbn [spec_fold].
+  destruct a as [| | | s | | |]; try reflexivity.
+  cbn [subst_spec]. cbn [spec_pass].
+  destruct (classify s) as [name | q | q | | ] eqn:C.
+  - apply classify_obj in C. rewrite C.
+    destruct (slookup name (c_ns E)) as [e|] eqn:L; [|reflexivity].
+    apply slookup_In in L as [k HI].
+    unfold ns_wf in Hns. rewrite forallb_forall in Hns. specialize (Hns _ HI). cbn [snd] in Hns.
+    destruct (n_val e) as [| | | s' | | |]; try reflexivity.
+    apply negb_true_iff, orb_false_iff in Hns as [H1 H2]. cbn [spec_pass].
+    now rewrite (not_starts_exact _ _ H1), (not_starts_exact _ _ H2), H1, H2.
+  - apply classify_res in C. pose proof (exact_body_starts _ _ _ C) as S.
+    rewrite (not_starts_exact _ _ (res_not_obj _ S)), (res_not_obj _ S). cbn [spec_pass].
+    rewrite C. unfold tree_expect.
+    now destruct (slookup (dots_to_slashes q) (c_tree E)) as [[h r|m]|].
+  - apply classify_handle in C. pose proof (exact_body_starts _ _ _ C) as S.
+    rewrite (not_starts_exact _ _ (handle_not_obj _ S)), (handle_not_obj _ S). cbn [spec_pass].
+    rewrite (not_starts_exact _ _ (handle_not_res _ S)), C. unfold tree_expect.
+    now destruct (slookup (dots_to_slashes q) (c_tree E)) as [[h r|m]|].
+  - apply classify_plain in C as [C1 [C2 C3]].
+    rewrite (not_starts_exact _ _ C1), C1. cbn [spec_pass].
+    now rewrite (not_starts_exact _ _ C2), (not_starts_exact _ _ C3), C2, C3.
+  - (* open: begins with a marker, no exact form *)
+    unfold classify in C.
+    destruct (exact_body m_obj s) eqn:X1; [discriminate|].
+    destruct (exact_body m_res s) eqn:X2; [discriminate|].
+    destruct (exact_body m_handle s) eqn:X3; [discriminate|].
+    destruct (starts_with m_obj s) eqn:S1; [reflexivity|]. cbn [spec_pass].
+    rewrite X2, X3.
+    destruct (starts_with m_res s || starts_with m_handle s) eqn:S2; [reflexivity|].
+    cbn [orb] in C. rewrite S2 in C. discriminate.
+Qed.
+
+(* ---- mapM ------------------------------------------------------------------------ *)
+Lemma mapM_Forall2 {A B} (f : A -> option B) : forall l l',
+  mapM f l = Some l' -> Forall2 (fun a b => f a = Some b) l l'.
+Proof.
+  induction l as [|a l IH]; intros l' H; cbn [mapM] in H.
+  - injection H as <-. constructor.
+  - destruct (f a) as [b|] eqn:Fa; [|discriminate].
+    destruct (mapM f l) as [r|]; [|discriminate]. injection H as <-.
+    constructor; [exact Fa|now apply IH].
+Qed.
+
+Lemma mapM_None {A B} (f : A -> option B) : forall l,
+  mapM f l = None -> exists a, In a l /\ f a = None.
+Proof.
+  induction l as [|a l IH]; cbn [mapM]; intro H; [discriminate|].
+  destruct (f a) as [b|] eqn:Fa.
+  - destruct (mapM f l) as [r|]; [discriminate|].
+    destruct (IH eq_refl) as [x [Hx Fx]]. exists x. split; [now right|exact Fx].
+  - exists a. split; [now left|exact Fa].
+Qed.
+
+Definition bindo {A B} (o : option A) (g : A -> option B) : option B :=
+  match o with Some a => g a | None => None end.
+
+Lemma mapM_compose {A B C} (f : A -> option B) (g : B -> option C) : forall l,
+  bindo (mapM f l) (mapM g) = mapM (fun a => bindo (f a) g) l.
+Proof.
+  induction l as [|a l IH]; cbn [mapM bindo]; [reflexivity|].
+  destruct (f a) as [b|]; cbn [bindo]; [|reflexivity].
+  rewrite <- IH. destruct (mapM f l) as [r|]; cbn [bindo mapM]; [reflexivity|].
+  now destruct (g b).
+Qed.
+
+Lemma mapM_ext {A B} (f g : A -> option B) l : (forall a, f a = g a) -> mapM f l = mapM g l.
+Proof. intro H. induction l as [|a l IH]; cbn [mapM]; [reflexivity|]. now rewrite H, IH. Qed.
+
+Lemma mapM_id {A} (l : list A) : mapM (fun a => Some a) l = Some l.
+Proof. induction l as [|a l IH]; cbn [mapM]; [reflexivity|]. now rewrite IH. Qed.
 
 Definition kw_lift (f : val -> option val) (p : Z * val) : option (Z * val) :=
   match f (snd p) with Some v => Some (fst p, v) | None => None end.
 
-Lemma kwargs_pipeline E l :
-  ns_wf E = true -> forallb (fun p => arg_wf E (snd p)) l = true ->
-  existsb (fun p => arg_known E (snd p)) l = false ->
-  match mapM (kw_lift (obj_map E)) l with
-  | Some l' => existsb (fun p => has_nocopy (snd p)) l' = false /\
-               match mapM (kw_lift (res_map E)) l' with
-               | Some l'' => forall2b (fun p q => (fst p =? fst q) && arg_ok E (snd p) (snd q))
-                                      l l'' = true
-               | None => existsb (fun p => is_open (snd p)) l = true
-               end
-  | None => existsb (fun p => is_open (snd p)) l = true
-  end.
+Lemma kw_lift_compose f g p : bindo (kw_lift f p) (kw_lift g) = kw_lift (fun a => bindo (f a) g) p.
+Proof. unfold kw_lift. cbn. destruct (f (snd p)); reflexivity. Qed.
+
+Lemma tr_args_compose f g o :
+  bindo (tr_args f o) (tr_args g) = tr_args (fun a => bindo (f a) g) o.
 Proof.
-  intros Hns. induction l as [|[k a] l IH]; cbn [forallb existsb mapM]; intros Hwf Hk.
-  - split; reflexivity.
-  - cbn [snd fst] in *.
-    apply andb_true_iff in Hwf as [Hw1 Hw2]. apply orb_false_iff in Hk as [Hk1 Hk2].
-    pose proof (arg_pipeline E a Hns Hw1 Hk1) as HA. unfold arg_result in HA.
-    specialize (IH Hw2 Hk2). unfold kw_lift at 1. cbn [snd fst].
-    destruct (obj_map E a) as [a'|]; [|now rewrite HA].
-    destruct HA as [HA1 HA2].
-    destruct (mapM (kw_lift (obj_map E)) l) as [l'|]; [|now rewrite IH, orb_true_r].
-    destruct IH as [IH1 IH2]. cbn [existsb mapM snd fst]. rewrite HA1, IH1. split; [reflexivity|].
-    unfold kw_lift at 1. cbn [snd fst].
-    destruct (res_map E a') as [o|]; [|now rewrite HA2].
-    destruct (mapM (kw_lift (res_map E)) l') as [l''|]; [|now rewrite IH2, orb_true_r].
-    cbn [forall2b fst snd]. now rewrite Z.eqb_refl, HA2, IH2.
+  destruct o as [l|]; cbn [tr_args bindo]; [|reflexivity].
+  rewrite <- mapM_compose. destruct (mapM f l); reflexivity.
 Qed.
 
-(* ---- one dict through the three passes ------------------------------------------ *)
+Lemma tr_kwargs_compose f g o :
+  bindo (tr_kwargs f o) (tr_kwargs g) = tr_kwargs (fun a => bindo (f a) g) o.
+Proof.
+  destruct o as [l|]; cbn [tr_kwargs bindo]; [|reflexivity].
+  fold (kw_lift f). fold (kw_lift g). fold (kw_lift (fun a => bindo (f a) g)).
+  rewrite (mapM_ext _ _ l (fun p => eq_sym (kw_lift_compose f g p))).
+  rewrite <- mapM_compose. destruct (mapM (kw_lift f) l); reflexivity.
+Qed.
+
+(* ---- one dict through any list of passes ------------------------------------------ *)
 Definition constr_of (ds : dstate) : constr :=
   K (match s_type ds with TObj e => tserial e | TStr _ => -3 end)
     (optl (s_args ds)) (optl (s_kwargs ds)).
+
+Definition vals_of (d : dstate) : list val := optl (s_args d) ++ map snd (optl (s_kwargs d)).
+
+Definition both (f : val -> option val) (e : nsent) (d : dstate) : option dstate :=
+  match tr_args f (s_args d) with
+  | Some a => match tr_kwargs f (s_kwargs d) with
+              | Some k => Some (DSt (TObj e) a k)
+              | None => None
+              end
+  | None => None
+  end.
+
+Definition ptypes (ps : list pass) : nat := length (filter is_ptype ps).
+
+(* the type field in front of the remaining passes *)
+Definition type_state (E : env) (ty : str) (e : nsent) (ps : list pass) (d : dstate) : Prop :=
+  (s_type d = TStr ty /\ ptypes ps = 1%nat) \/ (s_type d = TObj e /\ ptypes ps = 0%nat).
+
+Lemma deepcopy_ok_vals d :
+  (match s_type d with TObj e => has_nocopy (n_val e) = false | TStr _ => True end) ->
+  existsb has_nocopy (vals_of d) = false -> deepcopy_ok d = true.
+Proof.
+  intros Ht Hv. unfold vals_of in Hv. rewrite existsb_app in Hv.
+  apply orb_false_iff in Hv as [Ha Hk]. unfold deepcopy_ok. rewrite Ha.
+  assert (Hk' : existsb (fun p => has_nocopy (snd p)) (optl (s_kwargs d)) = false).
+  { clear - Hk. induction (optl (s_kwargs d)) as [|p l IH]; cbn in *; [reflexivity|].
+    apply orb_false_iff in Hk as [H1 H2]. now rewrite H1, IH. }
+  rewrite Hk'. destruct (s_type d); [reflexivity|now rewrite Ht].
+Qed.
+
+Lemma tr_both_vals f d d' :
+  tr_both f d = Some d' ->
+  s_type d' = s_type d /\ Forall2 (fun c c' => f c = Some c') (vals_of d) (vals_of d').
+Proof.
+  unfold tr_both, vals_of. destruct d as [ty a k]. cbn [s_type s_args s_kwargs].
+  destruct a as [la|]; cbn [tr_args optl].
+  - destruct (mapM f la) as [la'|] eqn:Ma; [|discriminate].
+    destruct k as [lk|]; cbn [tr_kwargs optl].
+    + fold (kw_lift f). destruct (mapM (kw_lift f) lk) as [lk'|] eqn:Mk; [|discriminate].
+      intros [= <-]. cbn [s_type s_args s_kwargs optl]. split; [reflexivity|].
+      apply Forall2_app; [now apply mapM_Forall2|].
+      apply mapM_Forall2 in Mk. clear - Mk. induction Mk as [|p q l l' H _ IH]; cbn [map]; constructor.
+      * unfold kw_lift in H. destruct (f (snd p)); [|discriminate]. now injection H as <-.
+      * exact IH.
+    + intros [= <-]. cbn [s_type s_args s_kwargs optl map]. split; [reflexivity|].
+      rewrite !app_nil_r. now apply mapM_Forall2.
+  - destruct k as [lk|]; cbn [tr_kwargs optl].
+    + fold (kw_lift f). destruct (mapM (kw_lift f) lk) as [lk'|] eqn:Mk; [|discriminate].
+      intros [= <-]. cbn [s_type s_args s_kwargs optl app]. split; [reflexivity|].
+      apply mapM_Forall2 in Mk. clear - Mk. induction Mk as [|p q l l' H _ IH]; cbn [map]; constructor.
+      * unfold kw_lift in H. destruct (f (snd p)); [|discriminate]. now injection H as <-.
+      * exact IH.
+    + intros [= <-]. cbn. split; [reflexivity|constructor].
+Qed.
+
+Lemma both_tr_both f e d d' :
+  tr_both f d = Some d' -> forall g, both g e d' = both (fun a => bindo (f a) g) e d.
+Proof.
+  unfold tr_both, both. destruct d as [ty a k]. cbn [s_type s_args s_kwargs].
+  intros H g. rewrite <- tr_args_compose, <- tr_kwargs_compose.
+  destruct (tr_args f a) as [a'|]; [|discriminate].
+  destruct (tr_kwargs f k) as [k'|]; [|discriminate].
+  injection H as <-. cbn [s_args s_kwargs bindo]. reflexivity.
+Qed.
+
+Lemma both_tr_both_none f e d :
+  tr_both f d = None -> forall g, both (fun a => bindo (f a) g) e d = None.
+Proof.
+  unfold tr_both, both. destruct d as [ty a k]. cbn [s_type s_args s_kwargs].
+  intros H g. rewrite <- tr_args_compose, <- tr_kwargs_compose.
+  destruct (tr_args f a) as [a'|]; cbn [bindo]; [|reflexivity].
+  destruct (tr_kwargs f k) as [k'|]; [discriminate|]. cbn [bindo].
+  now destruct (tr_args g a').
+Qed.
+
+Lemma vknown_tail E p r c c' :
+  vknown E (p :: r) c = false -> vpass E p c = Some c' ->
+  (r <> [] -> has_nocopy c' = false) /\ vknown E r c' = false.
+Proof.
+  cbn [vknown]. intros H V. rewrite V in H. apply orb_false_iff in H as [H1 H2].
+  split; [|exact H2]. intro Hr. destruct r; [contradiction|].
+  cbn [null negb] in H1. now rewrite andb_true_r in H1.
+Qed.
+
+Lemma Forall2_known E p r (f := vpass E p) l l' :
+  Forall2 (fun c c' => f c = Some c') l l' ->
+  forallb (fun c => negb (vknown E (p :: r) c)) l = true ->
+  (r <> [] -> existsb has_nocopy l' = false) /\ forallb (fun c => negb (vknown E r c)) l' = true.
+Proof.
+  induction 1 as [|c c' l l' H _ IH]; cbn [forallb existsb]; intro HK; [split; reflexivity|].
+  apply andb_true_iff in HK as [H1 H2]. apply negb_true_iff in H1.
+  destruct (vknown_tail E p r c c' H1 H) as [Ha Hb]. destruct (IH H2) as [Hc Hd].
+  split.
+  - intro Hr. now rewrite (Ha Hr), (Hc Hr).
+  - now rewrite Hb, Hd.
+Qed.
+
+Lemma apply_spec E ty e : 0 < c_depth E ->
+  slookup ty (c_ns E) = Some e -> callable (n_kind e) = true -> has_nocopy (n_val e) = false ->
+  forall ps d,
+    type_state E ty e ps d ->
+    (ps <> [] -> existsb has_nocopy (vals_of d) = false) ->
+    forallb (fun c => negb (vknown E ps c)) (vals_of d) = true ->
+    apply_transformers (map (pass_fn E) ps) d = both (vfold E ps) e d.
+Proof.
+  intros Hd L Hcall Hnc. induction ps as [|p r IH]; intros d TS NC KN; cbn [map apply_transformers].
+  - destruct TS as [[_ H]|[H _]]; [discriminate|].
+    unfold both. cbn [vfold]. destruct d as [t a k]. cbn [s_type s_args s_kwargs] in *. subst t.
+    destruct a as [la|]; destruct k as [lk|]; cbn [tr_args tr_kwargs];
+      try rewrite mapM_id;
+      try (rewrite (mapM_ext _ (fun p => Some p) lk) by (now intros [? ?]); rewrite mapM_id);
+      reflexivity.
+  - assert (DC : deepcopy_ok d = true).
+    { apply deepcopy_ok_vals; [|apply NC; discriminate].
+      destruct TS as [[H _]|[H _]]; rewrite H; [exact I|exact Hnc]. }
+    rewrite DC.
+    destruct p; cbn [pass_fn].
+    + (* type pass *)
+      destruct TS as [[H C]|[H C]]; [|cbn in C; discriminate].
+      unfold type_tr. rewrite H. unfold object_from_string. rewrite L, Hcall.
+      rewrite IH.
+      * unfold both. cbn [s_args s_kwargs vfold vpass]. reflexivity.
+      * right. cbn [s_type]. split; [reflexivity|]. cbn in C. unfold ptypes. lia.
+      * intro Hr. unfold vals_of in *. cbn [s_args s_kwargs]. apply NC. discriminate.
+      * unfold vals_of in *. cbn [s_args s_kwargs].
+        rewrite forallb_forall in KN. apply forallb_forall. intros c Hc. specialize (KN c Hc).
+        apply negb_true_iff in KN. apply negb_true_iff. cbn [vknown vpass] in KN.
+        now apply orb_false_iff in KN as [_ KN].
+    + (* object pass *)
+      unfold object_tr. destruct (tr_both (obj_map E) d) as [d'|] eqn:T.
+      * destruct (tr_both_vals _ _ _ T) as [Hty F2].
+        destruct (Forall2_known E PObj r _ _ F2 KN) as [NC' KN'].
+        rewrite IH; [|  |exact NC'|exact KN'].
+        -- rewrite (both_tr_both _ e _ _ T). unfold both.
+           cbn [vfold vpass]. reflexivity.
+        -- destruct TS as [[H C]|[H C]]; [left|right]; rewrite Hty; (split; [exact H|exact C]).
+      * symmetry. exact (both_tr_both_none _ e _ T (vfold E r)).
+    + (* resource pass *)
+      unfold resource_tr. replace (c_depth E <=? 0) with false by lia.
+      destruct (tr_both (res_map E) d) as [d'|] eqn:T.
+      * destruct (tr_both_vals _ _ _ T) as [Hty F2].
+        destruct (Forall2_known E PRes r _ _ F2 KN) as [NC' KN'].
+        rewrite IH; [|  |exact NC'|exact KN'].
+        -- rewrite (both_tr_both _ e _ _ T). unfold both.
+           cbn [vfold vpass]. reflexivity.
+        -- destruct TS as [[H C]|[H C]]; [left|right]; rewrite Hty; (split; [exact H|exact C]).
+      * symmetry. exact (both_tr_both_none _ e _ T (vfold E r)).
+Qed.
+
+(* ---- the result of the passes against the expectation --------------------------------- *)
+Lemma is_default_eq ps : is_default ps = true -> ps = default_passes.
+Proof.
+  unfold is_default, default_passes.
+  destruct ps as [|[] [|[] [|[] [|? ?]]]]; try discriminate. reflexivity.
+Qed.
+
+Lemma expected_fold E ps a :
+  ns_wf E = true -> expected E (HFile ps) a = spec_fold E ps (Exactly a).
+Proof.
+  intro Hns. cbn [expected]. destruct (is_default ps) eqn:D; [|reflexivity].
+  apply is_default_eq in D. subst ps. symmetry. now apply fold_default_one_pass.
+Qed.
+
+Lemma arg_fold_ok E ps a :
+  ns_wf E = true ->
+  match vfold E ps a with
+  | Some o => arg_ok E (HFile ps) a o = true
+  | None => open_arg E (HFile ps) a = true
+  end.
+Proof.
+  intro Hns. unfold arg_ok, open_arg. rewrite (expected_fold E ps a Hns).
+  pose proof (vfold_spec E ps a) as H. destruct (vfold E ps a) as [o|]; cbn [agrees] in H.
+  - destruct H as [-> | ->]; [apply val_eqb_refl|reflexivity].
+  - now rewrite H.
+Qed.
+
+Lemma args_fold_ok E ps l :
+  ns_wf E = true ->
+  match mapM (vfold E ps) l with
+  | Some l' => forall2b (arg_ok E (HFile ps)) l l' = true
+  | None => existsb (open_arg E (HFile ps)) l = true
+  end.
+Proof.
+  intro Hns. induction l as [|a l IH]; cbn [mapM]; [reflexivity|].
+  pose proof (arg_fold_ok E ps a Hns) as HA.
+  destruct (vfold E ps a) as [o|]; cbn [existsb]; [|now rewrite HA].
+  destruct (mapM (vfold E ps) l) as [l'|]; [|now rewrite IH, orb_true_r].
+  cbn [forall2b]. now rewrite HA, IH.
+Qed.
+
+Lemma kwargs_fold_ok E ps l :
+  ns_wf E = true ->
+  match mapM (kw_lift (vfold E ps)) l with
+  | Some l' => forall2b (fun p q => (fst p =? fst q) && arg_ok E (HFile ps) (snd p) (snd q)) l l' = true
+  | None => existsb (fun p => open_arg E (HFile ps) (snd p)) l = true
+  end.
+Proof.
+  intro Hns. induction l as [|[k a] l IH]; cbn [mapM]; [reflexivity|].
+  pose proof (arg_fold_ok E ps a Hns) as HA. unfold kw_lift at 1. cbn [fst snd].
+  destruct (vfold E ps a) as [o|]; cbn [existsb snd]; [|now rewrite HA].
+  destruct (mapM (kw_lift (vfold E ps)) l) as [l'|]; [|now rewrite IH, orb_true_r].
+  cbn [forall2b fst snd]. now rewrite Z.eqb_refl, HA, IH.
+Qed.
 
 Lemma args_plain_nocopy E l :
   forallb (arg_wf E) l = true -> existsb has_nocopy l = false.
@@ -441,89 +704,86 @@ Proof.
 Qed.
 
 Lemma kwargs_plain_nocopy E (l : list (Z * val)) :
-  forallb (fun p => arg_wf E (snd p)) l = true -> existsb (fun p => has_nocopy (snd p)) l = false.
+  forallb (fun p => arg_wf E (snd p)) l = true -> existsb has_nocopy (map snd l) = false.
 Proof.
-  induction l as [|a l IH]; cbn [forallb existsb]; intro H; [reflexivity|].
+  induction l as [|a l IH]; cbn [forallb existsb map]; intro H; [reflexivity|].
   apply andb_true_iff in H as [H1 H2]. unfold arg_wf in H1. apply andb_true_iff in H1 as [H1 _].
   now rewrite (plain_nocopy _ H1), (IH H2).
 Qed.
 
-(* what the theorem needs to know about a transformed dict *)
-Definition dict_result (E : env) (d : ddict) (t : Z) (k : ckind) (ds : dstate) : Prop :=
-  s_type ds = TObj (NS (JRef KObj t) k) /\ check_constr E d (constr_of ds) = true.
+Lemma not_known_forallb (f : val -> bool) (la : list val) (lk : list (Z * val)) :
+  existsb f la || existsb (fun p => f (snd p)) lk = false ->
+  forallb (fun c => negb (f c)) (la ++ map snd lk) = true.
+Proof.
+  intro H. apply orb_false_iff in H as [Ha Hk]. rewrite forallb_app. apply andb_true_iff. split.
+  - clear Hk. induction la as [|a l IH]; cbn in *; [reflexivity|].
+    apply orb_false_iff in Ha as [H1 H2]. now rewrite H1, IH.
+  - clear Ha. induction lk as [|a l IH]; cbn in *; [reflexivity|].
+    apply orb_false_iff in Hk as [H1 H2]. now rewrite H1, IH.
+Qed.
 
-Lemma transform_dict_spec E d t k :
-  0 < c_depth E -> ns_wf E = true -> dict_wf E d = true -> class_of E d = Some (t, k) ->
-  callable k = true -> dict_known E d = false ->
-  match transform_dict E d with
-  | Some ds => dict_result E d t k ds
-  | None => dict_open d = true
+Definition dict_result (E : env) (h : how) (d : ddict) (t : Z) (k : ckind) (ds : dstate) : Prop :=
+  s_type ds = TObj (NS (JRef KObj t) k) /\ check_constr E (h, d) (constr_of ds) = true.
+
+(* a dict of a file, through any list of passes that resolves the type once *)
+Lemma transform_dict_spec E ps d t k :
+  0 < c_depth E -> ns_wf E = true -> ptypes ps = 1%nat ->
+  dict_wf E (HFile ps) d = true -> class_of E d = Some (t, k) ->
+  callable k = true -> dict_known E (HFile ps, d) = false ->
+  match transform_dict E ps d with
+  | Some ds => dict_result E (HFile ps) d t k ds
+  | None => dict_open E (HFile ps, d) = true
   end.
 Proof.
-  intros Hd Hns Hwf Hc Hcall Hk.
+  intros Hd Hns Hpt Hwf Hc Hcall Hk.
   unfold dict_wf in Hwf. apply andb_true_iff in Hwf as [Hwf _].
   apply andb_true_iff in Hwf as [Hwa Hwk].
-  unfold dict_known in Hk. apply orb_false_iff in Hk as [Hka Hkk].
+  unfold dict_known in Hk. cbn [fst snd] in Hk.
   unfold class_of in Hc.
   destruct (slookup (d_type d) (c_ns E)) as [e|] eqn:L; [|discriminate].
   destruct e as [v k']. destruct v as [| | | | | | rk t']; try discriminate.
   destruct rk; try discriminate. injection Hc as -> ->.
-  unfold transform_dict, dict_transformers, init_dstate. cbn [apply_transformers].
-  (* pass 1 *)
-  unfold deepcopy_ok at 1. cbn [s_type s_args s_kwargs].
-  rewrite (args_plain_nocopy E _ Hwa), (kwargs_plain_nocopy E _ Hwk). cbn [negb andb].
-  unfold type_tr at 1. cbn [s_type s_args s_kwargs]. unfold object_from_string. rewrite L.
-  cbn [n_kind]. rewrite Hcall.
-  (* pass 2 *)
-  unfold deepcopy_ok at 1. cbn [s_type s_args s_kwargs n_val has_nocopy].
-  rewrite (args_plain_nocopy E _ Hwa), (kwargs_plain_nocopy E _ Hwk). cbn [negb andb].
-  unfold object_tr at 1, tr_both. cbn [s_type s_args s_kwargs].
-  pose proof (args_pipeline E (optl (d_args d)) Hns Hwa Hka) as PA.
-  pose proof (kwargs_pipeline E (optl (d_kwargs d)) Hns Hwk Hkk) as PK.
-  unfold dict_open.
-  destruct (d_args d) as [la|] eqn:Ea; destruct (d_kwargs d) as [lk|] eqn:Ek;
-    cbn [optl tr_args tr_kwargs] in *.
-  - fold (kw_lift (obj_map E)).
-    destruct (mapM (obj_map E) la) as [la'|]; [|now rewrite PA].
-    destruct PA as [PA1 PA2].
-    destruct (mapM (kw_lift (obj_map E)) lk) as [lk'|]; [|now rewrite PK, orb_true_r].
-    destruct PK as [PK1 PK2].
-    unfold deepcopy_ok at 1. cbn [s_type s_args s_kwargs n_val has_nocopy optl].
-    rewrite PA1, PK1. cbn [negb andb].
-    unfold resource_tr at 1. replace (c_depth E <=? 0) with false by lia.
-    unfold tr_both. cbn [s_type s_args s_kwargs tr_args tr_kwargs].
-    fold (kw_lift (res_map E)).
-    destruct (mapM (res_map E) la') as [la''|]; [|now rewrite PA2].
-    destruct (mapM (kw_lift (res_map E)) lk') as [lk''|]; [|now rewrite PK2, orb_true_r].
-    split; [reflexivity|]. unfold check_constr, constr_of. rewrite L, Ea, Ek.
+  unfold transform_dict.
+  rewrite (apply_spec E (d_type d) (NS (JRef KObj t) k) Hd L Hcall eq_refl).
+  2: { left. split; [reflexivity|exact Hpt]. }
+  2: { intros _. unfold vals_of, init_dstate. cbn [s_args s_kwargs]. rewrite existsb_app.
+       now rewrite (args_plain_nocopy E _ Hwa), (kwargs_plain_nocopy E _ Hwk). }
+  2: { unfold vals_of, init_dstate. cbn [s_args s_kwargs]. now apply not_known_forallb. }
+  unfold both, init_dstate, dict_open, dict_result, check_constr, constr_of.
+  cbn [s_type s_args s_kwargs fst snd]. rewrite L.
+  pose proof (args_fold_ok E ps (optl (d_args d)) Hns) as PA.
+  pose proof (kwargs_fold_ok E ps (optl (d_kwargs d)) Hns) as PK.
+  destruct (d_args d) as [la|]; destruct (d_kwargs d) as [lk|]; cbn [optl tr_args tr_kwargs] in *.
+  - fold (kw_lift (vfold E ps)).
+    destruct (mapM (vfold E ps) la) as [la'|]; [|now rewrite PA].
+    destruct (mapM (kw_lift (vfold E ps)) lk) as [lk'|]; [|now rewrite PK, orb_true_r].
     cbn [s_type s_args s_kwargs optl k_type k_args k_kwargs tserial n_val].
-    now rewrite Z.eqb_refl, PA2, PK2.
-  - destruct (mapM (obj_map E) la) as [la'|]; [|now rewrite PA].
-    destruct PA as [PA1 PA2].
-    unfold deepcopy_ok at 1. cbn [s_type s_args s_kwargs n_val has_nocopy optl existsb].
-    rewrite PA1. cbn [negb andb].
-    unfold resource_tr at 1. replace (c_depth E <=? 0) with false by lia.
-    unfold tr_both. cbn [s_type s_args s_kwargs tr_args tr_kwargs].
-    destruct (mapM (res_map E) la') as [la''|]; [|now rewrite PA2].
-    split; [reflexivity|]. unfold check_constr, constr_of. rewrite L, Ea, Ek.
+    split; [reflexivity|]. now rewrite Z.eqb_refl, PA, PK.
+  - destruct (mapM (vfold E ps) la) as [la'|]; [|now rewrite PA].
     cbn [s_type s_args s_kwargs optl k_type k_args k_kwargs tserial n_val forall2b].
-    now rewrite Z.eqb_refl, PA2.
-  - fold (kw_lift (obj_map E)).
-    destruct (mapM (kw_lift (obj_map E)) lk) as [lk'|]; [|now rewrite PK].
-    destruct PK as [PK1 PK2].
-    unfold deepcopy_ok at 1. cbn [s_type s_args s_kwargs n_val has_nocopy optl existsb].
-    rewrite PK1. cbn [negb andb].
-    unfold resource_tr at 1. replace (c_depth E <=? 0) with false by lia.
-    unfold tr_both. cbn [s_type s_args s_kwargs tr_args tr_kwargs].
-    fold (kw_lift (res_map E)).
-    destruct (mapM (kw_lift (res_map E)) lk') as [lk''|]; [|now rewrite PK2].
-    split; [reflexivity|]. unfold check_constr, constr_of. rewrite L, Ea, Ek.
+    split; [reflexivity|]. now rewrite Z.eqb_refl, PA.
+  - fold (kw_lift (vfold E ps)).
+    destruct (mapM (kw_lift (vfold E ps)) lk) as [lk'|]; [|now rewrite PK].
     cbn [s_type s_args s_kwargs optl k_type k_args k_kwargs tserial n_val forall2b].
-    now rewrite Z.eqb_refl, PK2.
-  - unfold deepcopy_ok at 1. cbn [s_type s_args s_kwargs n_val has_nocopy optl existsb negb andb].
-    unfold resource_tr at 1. replace (c_depth E <=? 0) with false by lia.
-    unfold tr_both. cbn [s_type s_args s_kwargs tr_args tr_kwargs].
-    split; [reflexivity|]. unfold check_constr, constr_of. rewrite L, Ea, Ek.
-    cbn [s_type s_args s_kwargs optl k_type k_args k_kwargs tserial n_val forall2b].
-    now rewrite Z.eqb_refl.
+    split; [reflexivity|]. now rewrite Z.eqb_refl, PK.
+  - cbn [s_type s_args s_kwargs optl k_type k_args k_kwargs tserial n_val forall2b].
+    split; [reflexivity|]. now rewrite Z.eqb_refl.
+Qed.
+
+(* a dict handed to populate_world_from_dict: nothing is substituted *)
+Lemma direct_dict_spec E d t k :
+  class_of E d = Some (t, k) ->
+  exists ds, direct_dict E d = Some ds /\ dict_result E HDict d t k ds.
+Proof.
+  intro Hc. unfold class_of in Hc. unfold direct_dict, object_from_string.
+  destruct (slookup (d_type d) (c_ns E)) as [e|] eqn:L; [|discriminate].
+  destruct e as [v k']. destruct v as [| | | | | | rk t']; try discriminate.
+  destruct rk; try discriminate. injection Hc as -> ->.
+  eexists. split; [reflexivity|]. unfold dict_result, check_constr, constr_of.
+  cbn [s_type s_args s_kwargs k_type k_args k_kwargs tserial n_val]. rewrite L.
+  split; [reflexivity|]. rewrite Z.eqb_refl. cbn [andb].
+  apply andb_true_iff. split.
+  - apply forall2b_refl. intro x. unfold arg_ok. cbn [expected]. apply val_eqb_refl.
+  - apply forall2b_refl. intros [key x]. cbn [fst snd]. rewrite Z.eqb_refl. unfold arg_ok.
+    cbn [expected]. apply val_eqb_refl.
 Qed.
